@@ -61,6 +61,15 @@ def run_geo(pid, tier, seed, keys, what_text, sig_extra=None, classes=None, opts
     jobs = [j + ("",) for j in plan_jobs(cases, oracle, keys, tier, opts)]
     for label, vopts, vkeys in (variants or []):
         jobs += [j + (label,) for j in plan_jobs(cases, oracle, vkeys, "quick" if tier == "quick" else tier, vopts)]
+    # the same keys with every input tensor handed over by its scalar components (gxx.., kxx.., betax.., dtbetax..)
+    for ci, cse in enumerate(cases, start=1):
+        if oracle.get(ci) is None:
+            continue
+        vo = dict(opts or {})
+        vo["_components"] = True
+        if cse.get("vacuum"):
+            vo.update({"vacuum": True, "_noT": True})
+        jobs.append((ci, 4, "interior", (cse, oracle[ci], 4, "interior", keys, vo), "inputs given component-wise"))
     if histories:
         hv, mres = history_variants(keys, tier)
         run.add_tlc(mres, "AurelCache on the extracted graph, 2 requests, nothing evicted: pre-histories for the compared keys")
